@@ -2,11 +2,15 @@
 
 package simrt
 
+import "unsafe"
+
 // RaceBuild reports whether this binary was built with -race.
 const RaceBuild = false
 
-func raceDisable()              {}
-func raceEnable()               {}
-func raceAcquire(p *int64)      {}
-func raceRelease(p *int64)      {}
-func raceReleaseMerge(p *int64) {}
+func raceDisable()                          {}
+func raceEnable()                           {}
+func raceAcquire(p *int64)                  {}
+func raceRelease(p *int64)                  {}
+func raceReleaseMerge(p *int64)             {}
+func raceAcquireAddr(p unsafe.Pointer)      {}
+func raceReleaseMergeAddr(p unsafe.Pointer) {}
